@@ -171,6 +171,7 @@ struct Obj {
   // Static inline function
   bool is_live;
   bool is_root;
+  Obj *owner;            // the function a static local object belongs to
   bool static_by_inline; // is_static only because every declaration so far says 'inline' without 'extern'
   StringArray refs;
 };
